@@ -904,7 +904,11 @@ func unop(fr *frame, instr *ssa.UnOp, x value) value {
 			return -x
 		}
 	case token.MUL:
-		return load(mustDeref(instr.X.Type()), fr.derefCheck(x.(*value)))
+		addr := fr.derefCheck(x.(*value))
+		if fr.i.st.race != nil {
+			fr.i.st.raceCells(fr, mustDeref(instr.X.Type()), addr, false, instr.Pos())
+		}
+		return load(mustDeref(instr.X.Type()), addr)
 	case token.NOT:
 		return !x.(bool)
 	case token.XOR:
@@ -1001,6 +1005,9 @@ func callBuiltin(caller *frame, callpos token.Pos, fn *ssa.Builtin, args []value
 		return nil
 
 	case "delete": // delete(map[K]value, K)
+		if caller.i.st.race != nil && args[0].(*smap) != nil {
+			caller.i.st.raceAccessCell(caller, args[0].(*smap), true, token.NoPos)
+		}
 		args[0].(*smap).delete(caller, args[1])
 		return nil
 
